@@ -42,12 +42,16 @@ IdRendering == IdRenderings[((Len(added) + Len(hist) + start) % 4) + 1]
 \* public constructor with the mode given as FileMode member or as its plain string value; one form per behaviour.
 \* (The second form also leaves its sessions the way a `with` block does, the third hands indices and identifiers
 \* over as numpy integers: forms of the same calls.)
+\* (A `with` block may be left normally or through an exception raised by the code around the store: either way the
+\* session is closed - Store.tla has one Close.  The second form alternates between the two.)
 EntryForms == <<"factory", "constructor", "constructor_str">>
 EntryForm == EntryForms[((Len(added) + 2 * Len(hist) + start) % 3) + 1]
 \* What the trajectories of a behaviour carry in their float scalars: ordinary numbers, or ("nan_scalar") NaN in one of
 \* the required ones of payload 2 - NaN is a value: such a trajectory is added, stored and read back
-PayloadForms == <<"plain", "nan_scalar">>
-PayloadForm == PayloadForms[((Len(hist) + start) % 2) + 1]
+\* ("late_fields": a trajectory with a second field set is made with the base fields only and gets the second set attached
+\* afterwards - what it is when it is offered to the store counts, not how it came to be)
+PayloadForms == <<"plain", "nan_scalar", "late_fields">>
+PayloadForm == PayloadForms[((2 * Len(added) + Len(hist) + start) % 3) + 1]
 Rec == [ev |-> last', n |-> Len(added'), ix |-> indexable']
 GNext == Next /\ hist' = Append(hist, Rec) /\ UNCHANGED start
 GSpec == GInit /\ [][GNext]_gvars
